@@ -337,6 +337,7 @@ def run_once(r):
 
 ENUM_POINTS, ENUM_MODES = 18, 5
 ENUM_PDIRS = 2  # default directory / OCTOSQL_PLUGIN_DIR with a trailing slash
+QUICK_CORE = 2 * 3 * ENUM_POINTS
 ENUM_TOTAL = len(INITIALS) * len(CONFIGS) * len(OPS) * ENUM_POINTS * ENUM_MODES * ENUM_PDIRS
 
 
@@ -344,6 +345,16 @@ def enumerate_tape(run, tier):
     """Thorough tier: the first ENUM_TOTAL runs walk (initial state x config x operation) x crash point x
     {kill, torn write at byte 0, 1, middle, last} systematically; the tape is prefilled accordingly
     (indices beyond a template's crash points wrap around). Later runs are seeded-random."""
+    if tier == "quick":
+        # the quick tier walks a core of the same enumeration before it samples: an upgrade or reinstall
+        # over an installed, configured v1, killed at every crash point in turn
+        if run >= QUICK_CORE:
+            return None
+        e = run
+        cfg, e = [1, 3][e % 2], e // 2
+        op, e = e % 3, e // 3
+        pt = e % ENUM_POINTS
+        return [1, cfg, op, 0, 0, 0, 0, 0] + [1, pt, 0, 0, 0, 0, 0]
     if tier != "thorough" or run >= ENUM_TOTAL:
         return None
     e = run
